@@ -124,6 +124,15 @@ def run(ctx):
     judge(ctx, ctx.validate("AltsRecordTrace", "AltsRecordTrace.cfg", tpath), tpath, "replay of TLC behaviours")
     n = ctx.pick(400, 3000)
     rnd = [random_scenario(ctx.rng) for _ in range(n)] + [overflow_scenario(ctx.rng) for _ in range(ctx.pick(20, 200))]
+    # records whose wire size is k*4096 + {1..4} under a large frame (the read buffer has to grow to exactly the
+    # record: page rounding leaves no slack), each on an empty read-buffer pool, smallest first
+    edge = []
+    for k, r in sorted(ctx.pick([(10, 2), (100, 1), (100, 2), (100, 3), (100, 4)],
+                                [(k, r) for k in (9, 10, 33, 64, 100, 127) for r in (1, 2, 3, 4)])):
+        edge.append({"frame": 524288, "proto": ("rekey", "gcm")[r % 2], "seg": [[1 << 30], [4095], [65536]][(k + r) % 3], "salt": r,
+                     "fresh": True, "steps": [{"a": "write", "n": k * 4096 + r - OH}, {"a": "adv", "kind": "none"},
+                                              {"a": "read", "n": 32768}]})
+    rnd = edge + rnd
     # a write larger than the 512 KiB write buffer (several Conn.Write calls per Write)
     rnd.append({"frame": 0, "proto": "rekey", "seg": [1 << 30], "salt": 5,
                 "steps": [{"a": "write", "n": 600000}, {"a": "adv", "kind": "flip", "k": 140, "cls": "tag"}]})
